@@ -589,7 +589,7 @@ fn law_case(cx: &mut Cx, t: &Tera, rng: &mut Rng) {
         5 => V::F64((rng.below(2000) as f64 - 1000.0) * 0.5),
         6 => gen_int(rng),
         7 => gen_float(rng, false),
-        _ => V::F64(*rng.pick(&[2.1, 1e300, -1e300, 1.7e308, 5e-324, 0.5, 1.5, 2.5, -0.5, 1e15 + 0.5, 123456.789])),
+        _ => V::F64(*rng.pick(&[2.1, 1e300, -1e300, 1.7e308, 5e-324, 0.5, 1.5, 2.5, -0.5, 1e15 + 0.5, 123456.789, 170141183460469231731687303715884105728.0, -170141183460469231731687303715884105728.0, 170141183460469212842221372237303250944.0, 18446744073709551616.0, 9223372036854775808.0, -9223372036854775808.0, 340282366920938463463374607431768211456.0])),
     };
     let p = *rng.pick(&[-2i64, -1, 0, 1, 2, 3, 5, 10, 15, 17, 300, 308, 309, 400, -300, -400, 2147483647, -2147483648]);
     let mut c2 = Context::new();
@@ -628,7 +628,10 @@ fn law_case(cx: &mut Cx, t: &Tera, rng: &mut Rng) {
         }
         match rend!("int", &c2) {
             Ok(o) => {
-                if fv.fract() != 0.0 || o != format!("{}", fv as i128) {
+                // exact or refused: only integral floats inside [-2^127, 2^127) have an i128 value (the cast below would
+                // saturate outside, so the range is checked first)
+                let in_range = fv >= -170141183460469231731687303715884105728.0 && fv < 170141183460469231731687303715884105728.0;
+                if fv.fract() != 0.0 || !in_range || o != format!("{}", fv as i128) {
                     fail!("int-of-float", nrp.clone(), "{fv:?} | int -> {o}");
                 }
             }
